@@ -125,6 +125,56 @@ def _histories(res, items, rng, family):
         res.nontriv((b, tuple(ops)))
 
 
+def _through_reader(res, rng, n, family="reader_after_damaged"):
+    """A readout whose END LINE is damaged (bit 7 set in a checksum character, wrong digits, junk) followed by correctly
+    check-summed readouts, through ModeDReader under random chunking: the damaged one must not be reported valid, and
+    every following good readout must be handed out valid, byte-identical (exceptions from read() are recorded)."""
+    from han.dlde import ModeDReader
+    import logging
+    logging.disable(logging.CRITICAL)
+    for _ in range(n):
+        bad = bytearray(P.gen_readout(rng, with_crc=True))
+        e = bad.find(b"!")
+        k = rng.randrange(4)
+        if k == 0 and e + 4 < len(bad):
+            bad[e + 1 + rng.randrange(4)] |= 0x80
+        elif k == 1 and e + 4 < len(bad):
+            bad[e + 1 + rng.randrange(4)] = rng.choice(b"0123456789ABCDEFxg_ ")
+        elif k == 2:
+            bad[e + 1:e + 5] = bytes(rng.choice([0xFF, 0x80, 0xE9, 0x41]) for _ in range(rng.choice([1, 4, 6])))
+        else:
+            bad[e + 1:e + 5] = b"%04X" % ((P.crc16(bytes(bad[:e + 1])) + rng.choice([1, 0x100, 0x8000])) & 0xFFFF)
+        was_right = bytes(bad[e + 1:e + 5]).upper() == b"%04X" % P.crc16(bytes(bad[:e + 1]))
+        goods = [P.gen_readout(rng, with_crc=True) for _ in range(rng.choice([1, 2, 3]))]
+        data = bytes(bad) + b"".join(goods)
+        cuts = sorted(rng.sample(range(1, len(data)), min(len(data) - 1, rng.choice([0, 1, 2, 5, 20]))))
+        chunks = lib.split_at(data, cuts)
+        r = ModeDReader()
+        got, errs = [], []
+        for ch in chunks:
+            try:
+                got += r.read(ch)
+            except Exception as ex:  # noqa
+                errs.append(type(ex).__name__)
+        res.evaluations += 1
+        case = {"op": "p1.reader", "chunks": [c.hex() for c in chunks]}
+        valid = []
+        for x in got:
+            try:
+                if x.is_valid:
+                    valid.append(bytes(x.as_bytes))
+            except Exception as ex:  # noqa
+                errs.append("is_valid:" + type(ex).__name__)
+        if not was_right and bytes(bad).lstrip() in valid:
+            res.prop_failure(case, "the readout with the damaged end line was reported valid", family)
+        missing = [g for g in goods if g.lstrip() not in valid]
+        if missing:
+            res.prop_failure(case, f"{len(missing)} of {len(goods)} correctly check-summed readouts after a damaged one were not handed out valid"
+                             + (f" (read() raised {errs[:3]})" if errs else ""), family)
+        res.count(family)
+        res.nontriv(("reader", data))
+
+
 def _encoded(res, descs, family):
     """spec-encoded well-formed readouts must be valid with exact payload and identification"""
     reqs = [P.clean_request(b"", [d], []) for d in descs]
@@ -242,6 +292,7 @@ def run(res, tier, seed, widen=1):
     res.count("unicode_text_traps", 2 * len(traps) + 10)
     for i in range(0, len(items), 5000):
         _readouts(res, items[i:i + 5000], "from_bytes")
+    _through_reader(res, rng, (150 if tier == "quick" else 4000) * widen)
     hist = [it for it in items if rng.random() < 0.5]
     for i in range(0, len(hist), 5000):
         _histories(res, hist[i:i + 5000], rng, "accessor_history")
@@ -262,6 +313,29 @@ def search(res, tier, seed):
 
 
 def replay(payload, res):
+    if payload["case"].get("op") == "p1.reader":
+        from han.dlde import ModeDReader
+        r = ModeDReader()
+        got, errs = [], []
+        for ch in payload["case"]["chunks"]:
+            try:
+                got += r.read(bytes.fromhex(ch))
+            except Exception as ex:  # noqa
+                errs.append(type(ex).__name__)
+        data = b"".join(bytes.fromhex(c) for c in payload["case"]["chunks"])
+        # the stream is one damaged readout followed by good ones: all but the first '/'-readout must come out valid
+        parts = [b"/" + p for p in data.split(b"/")[1:]]
+        valid = []
+        for x in got:
+            try:
+                if x.is_valid:
+                    valid.append(bytes(x.as_bytes))
+            except Exception:  # noqa
+                pass
+        missing = [p for p in parts[1:] if p.lstrip() not in valid]
+        print("read() exceptions:", errs, "| valid readouts:", len(valid), "| good readouts not delivered valid:", len(missing))
+        print("REPLAY", "fails" if missing else "passes")
+        return 1 if missing else 0
     if payload["case"].get("op") == "p1.readout.history":
         import random
 
